@@ -243,12 +243,14 @@ Definition plain_text (l : list byte) : bool :=
                     && negb (b =? HASH)) l.
 
 (* what tmux may have made of the line "#ty:pl": unrelated text in front (anything without
-   LF / Ctrl-C that does not contain the marker "#ty:"), status strings inside the line
-   (also inside the marker), CR LF wraps everywhere *)
+   LF / Ctrl-C), status strings inside the line, CR LF wraps everywhere.  The text in front
+   may even contain the marker "#ty:" (the echo of an earlier line) as long as no status
+   string splits the line's own marker; if one does, the text in front must not contain the
+   marker (the reader then falls back to the last '#') *)
 Inductive tmux_noisy (ty pl : list byte) : list byte -> Prop :=
 | tmux_noisy_intro junk S s :
     forallb (fun b => negb (b =? LF) && negb (b =? ETX)) junk = true ->
-    contains (HASH :: ty ++ [COLON]) junk = false ->
+    (contains (HASH :: ty ++ [COLON]) junk = false \/ has_prefix (ty ++ [COLON]) S = true) ->
     with_status (ty ++ COLON :: pl) S ->
     wrapped (junk ++ HASH :: S) s ->
     tmux_noisy ty pl s.
